@@ -116,6 +116,11 @@ def _capture_contents(seq, text, fs, rx, res, inp):
     tg = [(g, i, k) for g, i, k in top_groups(seq) if k != '!']
     if not tg:
         return
+    if pat.has_ext(seq, '!'):
+        # what a negated group consumes depends on everything that follows it, so prefix / group / suffix cannot be
+        # judged in isolation when a negation occurs anywhere in the pattern (the language itself is still compared)
+        res.notes['capture_check_skipped_negation'] += 1
+        return
     sub = F.DOTMATCH | F.EXTMATCH | (F.IGNORECASE if 'I' in fs and 'C' not in fs else F.CASE)
     for L in range(1, 4):
         for tup in itertools.product(CAP_ALPHA, repeat=L):
